@@ -260,6 +260,30 @@ func RunC12(tier string) int {
 			parts = append(parts, map[string]any{"part": "builder-analysis-must-fail", "runs": len(must)})
 			fmt.Printf("  part builder-analysis-must-fail: runs=%d\n", len(must))
 		}
+		// a singleton finder: every call returns the SAME warning slice; each caller and the tracer must
+		// still see it with the file name rewritten for the package that was being analysed
+		{
+			sargs := make([]BuildArg, len(good))
+			pool.Map("build", len(good), func(i int) any {
+				sargs[i] = BuildArg{World: good[i].world(), Adds: good[i].adds, Trace: true, PostUse: true, ForceFind: 4, Probes: probesFor(goodC[i])}
+				return sargs[i]
+			}, func(i int, r core.Result) {
+				rep.Evaluations++
+				desc := good[i].String() + " finder=returns-one-shared-warning-slice"
+				if r.Hung || r.Crashed {
+					rep.Violation("sourcebundle.Builder/hang-or-crash", desc+" "+firstLines(r.Stderr, 3), "build", sargs[i])
+					return
+				}
+				var out BuildOut
+				core.MustOut(r, &out)
+				for _, v := range judgeC12(good[i], goodC[i], out) {
+					rep.Violation("sourcebundle.Builder/"+v[0], desc+" :: "+v[1], "build", sargs[i])
+				}
+				rep.Outcome("build:shared-diagnostics-slice")
+				rep.Nontrivial(fmt.Sprintf("shared:%d:%d", len(out.Points), len(out.Trace)))
+			})
+			parts = append(parts, map[string]any{"part": "builder-singleton-finder-shared-diagnostics", "runs": len(good)})
+		}
 		type run struct {
 			sc      int
 			choices []int
@@ -349,7 +373,7 @@ func judgeC12(sc scenario, c *RefClosure, out BuildOut) (viol [][2]string) {
 		switch {
 		case strings.HasPrefix(p.Label, "find "):
 			failing = p.Chose == 1 || p.Chose == 3
-			if p.Chose == 2 || p.Chose == 3 {
+			if p.Chose == 2 || p.Chose == 3 || p.Chose == 4 {
 				warnAdds[p.Add] = true
 			}
 		default:
@@ -440,6 +464,8 @@ func judgeC12(sc scenario, c *RefClosure, out BuildOut) (viol [][2]string) {
 			expected = append(expected, DiagOut{Sev: "E", Summary: "finder error", Detail: "detail of " + key, Extra: "X1"})
 		case 2:
 			expected = append(expected, DiagOut{Sev: "W", Summary: "finder warning", Detail: "warn " + key, Subject: "//m/main.tf", Extra: "42", Ranges: "S{1 2 3}-{4 5 6}"})
+		case 4:
+			expected = append(expected, DiagOut{Sev: "W", Summary: "finder warning", Detail: "shared warning", Subject: "//m/main.tf", Extra: "42", Ranges: "S{1 2 3}-{4 5 6}"})
 		case 3:
 			expected = append(expected, DiagOut{Sev: "E", Summary: "finder error with ranges", Detail: "d", Subject: "//m/main.tf", Context: "//other.tf", Ranges: "S{1 2 3}-{4 5 6}C{7 8 9}-{0 0 0}"},
 				DiagOut{Sev: "W", Summary: "second", Detail: "w", Subject: "../not-a-subpath", Ranges: "S{1 2 3}-{4 5 6}"})
